@@ -22,7 +22,7 @@ type Canon struct {
 	env      []map[*ssa.Parameter]string
 	PhiEdge  map[*ssa.Phi]ssa.Value // optional: phi resolved along the current path
 	phiStack []*ssa.Phi
-	PhiName  map[*ssa.Phi]string // optional: fixed names (iteration mode: loop state variables)
+	PhiName  map[*ssa.Phi]string      // optional: fixed names (iteration mode: loop state variables)
 	AllocVal map[*ssa.Alloc]ssa.Value // optional: last value stored into a local along the current path
 }
 
